@@ -1,7 +1,7 @@
 # -*- coding: utf-8 -*-
 
 
-from vsg import severity, utils
+from vsg import exceptions, severity, utils
 
 
 class Rule:
@@ -244,7 +244,7 @@ def configure_attribute(self, oConfig, sGroupName):
     try:
         for sAttributeName in oConfig.dConfig["rule"]["group"][sGroupName]:
             if sAttributeName == "severity":
-                self.severity = oConfig.severity_list.get_severity_named(oConfig.dConfig["rule"]["group"][sGroupName]["severity"])
+                self.severity = get_configured_severity(oConfig, oConfig.dConfig["rule"]["group"][sGroupName]["severity"])
             elif sAttributeName in self.__dict__:
                 self.__dict__[sAttributeName] = oConfig.dConfig["rule"]["group"][sGroupName][sAttributeName]
     except KeyError:
@@ -258,7 +258,7 @@ def configure_global_rule_attributes(self, oConfig):
     try:
         for sAttributeName in oConfig.dConfig["rule"]["global"]:
             if sAttributeName == "severity":
-                self.severity = oConfig.severity_list.get_severity_named(oConfig.dConfig["rule"]["global"]["severity"])
+                self.severity = get_configured_severity(oConfig, oConfig.dConfig["rule"]["global"]["severity"])
             elif sAttributeName in self.configuration:
                 self.__dict__[sAttributeName] = oConfig.dConfig["rule"]["global"][sAttributeName]
     except KeyError:
@@ -272,7 +272,7 @@ def configure_rule_attributes(self, oConfig):
     try:
         for sAttributeName in oConfig.dConfig["rule"][self.get_unique_id()]:
             if sAttributeName == "severity":
-                self.severity = oConfig.severity_list.get_severity_named(oConfig.dConfig["rule"][self.get_unique_id()]["severity"])
+                self.severity = get_configured_severity(oConfig, oConfig.dConfig["rule"][self.get_unique_id()]["severity"])
             elif sAttributeName in self.__dict__:
                 self.__dict__[sAttributeName] = oConfig.dConfig["rule"][self.get_unique_id()][sAttributeName]
             for oOption in self.options:
@@ -280,6 +280,16 @@ def configure_rule_attributes(self, oConfig):
                     oOption.value = oConfig.dConfig["rule"][self.get_unique_id()][sAttributeName]
     except KeyError:
         pass
+
+
+def get_configured_severity(oConfig, sName):
+    """
+    Returns the severity with the given name or reports a name no severity has as a configuration error.
+    """
+    oSeverity = oConfig.severity_list.get_severity_named(sName)
+    if oSeverity is None:
+        raise exceptions.ConfigurationError("ERROR: Severity " + str(sName) + " referenced in configuration could not be found")
+    return oSeverity
 
 
 def get_rule_identifier(self):
